@@ -25,6 +25,7 @@ func C01(r *core.Run) {
 	w.classifyEmitters()
 	encodeDecodeMatrix(r, w)
 	bitSizes(r, "lib/j5reflect", "scalarReflectFromGo")                                                                  // quoted integers re-parse with the field's own width and signedness
+	floatBits(r)                                                                                                         // … and FLOAT32 text with 32 bits: the encoder's own output for the largest float32 must decode
 	rules.VerbatimCopy(r, codecRel, "appendString", "google.golang.org/protobuf/internal/encoding/json", "appendString") // the escaper is the library's, whose output encoding/json reads back
 	w.ruleW5()                                                                                                           // labels and strings are escaped: an unescaped key does not decode to the same key
 	w.ruleW6()                                                                                                           // "!type" / "value" constants on both sides
